@@ -1,7 +1,7 @@
 from .base import *
 
 ID = 'C10'
-THEOREMS = ['C10_wedge', 'C10_geo', 'C10_meet', 'C10_wedge_blades', 'C10_parallel', 'C10_special_hyps_inhabited', 'C10_wedge_value', 'C10_sin_value', 'C10_swap_magnitude', 'C10_swap_orientation']
+THEOREMS = ['C10_wedge', 'C10_geo', 'C10_meet', 'C10_wedge_blades', 'C10_parallel', 'C10_special_hyps_inhabited', 'C10_wedge_value', 'C10_sin_value', 'C10_swap_magnitude', 'C10_swap_orientation', 'C10_lagrange']
 OWNED = {'GWedge', 'GGeo', 'GMeet'}
 RULE = ('pairs by angle relation (parallel, antiparallel, nearly parallel within 1e-15..1e-6, orthogonal, arbitrary; all 4 grades each side; blades to 2^40) x magnitude relation; wedge both ways, geo vs dot+wedge, '
         'meet vs dual(wedge(dual,dual)), Lagrange identity. non-trivial = owned op result differs from its operands')
@@ -31,5 +31,5 @@ def generate(rng, tier):
 
 LEVEL_TEXT = ('Kernel-checked theorems for every libm: wedge magnitude is fmul(fmul |a| |b|) (fabs sinF(..)) and its angle is (a.angle + b.angle) + pi/2, plus pi exactly when sinF(..) <_F 0; '
               'for canonical operands the wedge angle is canonical with blade a + blade b + 1 <= blade <= blade a + blade b + 4; geo IS dot + wedge; meet IS dual(wedge(dual a, dual b)). '
-              'C10_parallel: a wedge a has magnitude exactly 0 when sin(+0)=0. C10_sin_value / C10_wedge_value (S2, REAL pi): for any libm with |sinF - sin| <= u on [-8,8] the wedge magnitude, when finite, is within |a||b|(u + 1.0002e-10) + 2^-1073 of |a||b||sin(dir b - dir a)|. C10_swap_magnitude: |a^b| and |b^a| agree within twice that tolerance. C10_swap_orientation: swapping the operands turns the wedge angle by exactly two blades (remainder untouched) whenever |sin(direction difference)| exceeds the value tolerance. The Lagrange identity is decided against mpmath (S3).')
+              'C10_parallel: a wedge a has magnitude exactly 0 when sin(+0)=0. C10_sin_value / C10_wedge_value (S2, REAL pi): for any libm with |sinF - sin| <= u on [-8,8] the wedge magnitude, when finite, is within |a||b|(u + 1.0002e-10) + 2^-1073 of |a||b||sin(dir b - dir a)|. C10_swap_magnitude: |a^b| and |b^a| agree within twice that tolerance. C10_swap_orientation: swapping the operands turns the wedge angle by exactly two blades (remainder untouched) whenever |sin(direction difference)| exceeds the value tolerance. C10_lagrange: |a.b|^2 + |a^b|^2 = |a|^2|b|^2 within 2e(2|a||b| + e), e the value tolerance. Every case of each run is additionally decided against mpmath (S3).')
 LEVEL_NOTE = ('Partial. Trusted: Coq kernel + vm_compute; 4 standard-library axioms; plus the primitive-integer axioms (PrimInt63.*, Uint63.*_spec) that the Interval tactic uses for the two bounds on the real pi in PiBounds.v (value theorems only); hand-written model validated bit-for-bit each run with the recorded libm table.')
